@@ -276,6 +276,23 @@ def run(ctx) -> None:
                     ctx.check(case, lambda c: _run_one(ctx, c))
     ctx.sweep("frames that look like packets x ids x {enc, send}", k, True)
 
+    # several exchanges on one object while the unit stamps its own id on its replies: every request carries the configured id
+    # (0 - what the CLI uses when --id is omitted - and byte-boundary values included)
+    z = 0
+    for dev_id in (0, 1, 0xFF, 0x100, 0xFFFFFFFFFFFF, 0x1000000000000, 0xFFFFFFFFFFFFFFFF):
+        for reply_id in (0, 1, 0x0000A1B2C3D4E5F6, 0xFFFFFFFFFFFFFFFF):
+            if reply_id == dev_id:
+                continue
+            for api in ("lan", "device"):
+                for drop_first in (0, 1):
+                    z += 1
+                    if ctx.mine(z):
+                        fr = bytes((z * 5 + i) & 0xFF for i in range(10 + z % 30))
+                        case = {"kind": "send", "frame": fr.hex(), "id": dev_id, "reply_id": reply_id, "replies": [fr[::-1].hex()], "more_sends": 1 + z % 2, "api": api,
+                                "drop_first": drop_first, "ts": 1.0e6 + z, "deliver": ["bytes", "bytearray"][z % 2]}
+                        ctx.check(case, lambda c: _run_one(ctx, c))
+    ctx.sweep("configured id x id stamped on replies x api x lost first transmission, several exchanges", z, True)
+
     # one long run in a single process (anything counted per process or per class: 16- and 32-bit boundaries of a packet count)
     if ctx.shard == 0:
         case = {"kind": "long", "frame": "aa20ac00000000000003418100ff03ff00020000000000000000000000000301", "id": 0x0000A1B2C3D4E5F6 & 0xFFFFFFFFFFFF,
